@@ -71,6 +71,7 @@ def cache_accesses(fn):
 def run(ctx):
     repo, cg = ctx.repo, ctx.cg
     key_rule(ctx)
+    inputs_rule(ctx)
     pin_rule(ctx)
     fixed_rule(ctx)
     embedded_rule(ctx)
@@ -135,6 +136,78 @@ def key_rule(ctx, only=None, prefix='C05-KEY', floor=20):
                 ctx.ob(prefix + '.lookup-and-store-use-the-same-key', fn, snode, True, 'excepted: ' + exc, nontrivial=False); continue
             ctx.ob(prefix + '.lookup-and-store-use-the-same-key', fn, snode, ok, detail, expected='store under exactly the key that was looked up')
     ctx.floor(prefix, pairs, floor, 'cache lookup/store pairs')
+
+
+INPUT_EXCEPTIONS = {
+    ('create_extractors', 'extractors_cache'): "code_key identifies the code object the tree, the scope and the outer names were taken from (the protocol C05-SHAPE checks at the call sites)",
+    ('has_perm', 'perm_cache'): "dead cache (see EXCEPTIONS): the entry is never served",
+}
+LOSSLESS_CALLS = {'HashableDict', 'tuple', 'frozenset', 'dict', 'sorted', 'list'}
+
+
+def lossless_names(e, out, resolve):
+    """names whose value is carried into the key expression `e` without loss: direct elements of tuples / dicts / HashableDict(...), concatenations,
+    sorted(x.items()), -x, comprehensions over x, and (through `resolve`) the definitions of locals.  A name that only occurs under a comparison,
+    a boolean operator, bool(), len() ... is not carried: different values give the same key"""
+    if isinstance(e, ast.Name):
+        if e.id in out: return
+        out.add(e.id)
+        for v in resolve(e.id): lossless_names(v, out, resolve)
+    elif isinstance(e, (ast.Tuple, ast.List)):
+        for x in e.elts: lossless_names(x, out, resolve)
+    elif isinstance(e, ast.Dict):
+        for x in list(e.keys) + list(e.values):
+            if x is not None: lossless_names(x, out, resolve)
+    elif isinstance(e, ast.Starred): lossless_names(e.value, out, resolve)
+    elif isinstance(e, ast.Call) and dotted(e.func) in LOSSLESS_CALLS:
+        for a in e.args: lossless_names(a, out, resolve)
+        for k in e.keywords: lossless_names(k.value, out, resolve)
+    elif isinstance(e, ast.IfExp): lossless_names(e.body, out, resolve); lossless_names(e.orelse, out, resolve)
+    elif isinstance(e, ast.BinOp) and isinstance(e.op, ast.Add): lossless_names(e.left, out, resolve); lossless_names(e.right, out, resolve)
+    elif isinstance(e, ast.UnaryOp) and isinstance(e.op, ast.USub): lossless_names(e.operand, out, resolve)
+    elif isinstance(e, ast.Call) and isinstance(e.func, ast.Attribute) and e.func.attr in ('items', 'keys', 'values', 'copy') and not e.args: lossless_names(e.func.value, out, resolve)
+    elif isinstance(e, (ast.GeneratorExp, ast.ListComp, ast.SetComp)):
+        for gen in e.generators: lossless_names(gen.iter, out, resolve)
+
+
+def inputs_rule(ctx, prefix='C05-KEY'):
+    """a compute-and-store cache: every parameter of the function that the computation between the lookup and the store reads is carried, without
+    loss, by the key (or selects the cache container).  `aggr_func=(name, distinct, sep is not None)` files the SQL built for one separator under
+    a key that every other separator shares."""
+    from ..q import reaching_defs, value_of_def
+    repo, cg = ctx.repo, ctx.cg
+    n = 0
+    for fn in repo.rule_funcs():
+        looks, stores = cache_accesses(fn)
+        if not looks or not stores: continue
+        g = cg.cfg(fn)
+        params = set(fn.params[1:] if fn.cls else fn.params)
+        for d, k2, snode in stores:
+            ls = [(kd, k1, ln) for kd, k1, ln in looks if kd == d and ln is not snode]
+            sn = cfg_node_of(g, snode)
+            if not ls or not sn: continue
+            def resolve(name, sn=sn):
+                return [v for dn in reaching_defs(g, sn[0], name) for v in [value_of_def(dn, name)] if v is not None]
+            have = set(); lossless_names(k2, have, resolve)
+            for v in resolve(d.split('.')[0]):            # the container is selected by an input: roles_cache = local.user_roles_cache[user]
+                have |= {x.id for x in ast.walk(v) if isinstance(x, ast.Name)}
+            have |= {x.id for x in ast.walk(ast.parse(d, mode='eval')) if isinstance(x, ast.Name)}
+            lnodes = [x for _, _, ln in ls for x in cfg_node_of(g, ln)]
+            region = g.reach(lnodes) & g.reach(sn, backward=True)
+            used = {x.id for i in region if g.nodes[i].ast is not None for x in ast.walk(g.nodes[i].ast)
+                    if isinstance(x, ast.Name) and isinstance(x.ctx, ast.Load) and x.id in params}
+            miss = sorted(used - have)
+            qual = fn.qual.split('.<locals>.')[0]
+            exc = INPUT_EXCEPTIONS.get((qual, d)) or INPUT_EXCEPTIONS.get((fn.name, d))
+            n += 1
+            if miss and exc:
+                ctx.exception(prefix, '%s:%s inputs' % (qual, d), exc)
+                ctx.ob(prefix + '.key-carries-every-parameter-the-computation-reads', fn, snode, True, 'excepted: ' + exc, nontrivial=False); continue
+            ctx.ob(prefix + '.key-carries-every-parameter-the-computation-reads', fn, snode, not miss,
+                   '' if not miss else 'the value stored in %s is computed from the parameter(s) %s, but the key `%s` does not carry them without loss (they occur only under a '
+                   'comparison / boolean / lossy call, or not at all): calls that differ only in %s are served each other\'s entry' % (d, miss, norm(k2)[:80], miss),
+                   expected='every parameter read between the lookup and the store is an element of the key')
+    ctx.floor(prefix, n, 15, 'compute-and-store caches whose key is compared with the parameters read')
 
 
 def subst_copies(fn, key):
@@ -501,6 +574,8 @@ def alias_rule(ctx):
 
 
 MUTANTS = [
+    dict(id='C05-inp1', file='pony/orm/core.py', fn='Query._construct_sql_and_arguments', old='aggr_func=(aggr_func_name, aggr_func_distinct, sep),', new='aggr_func=(aggr_func_name, aggr_func_distinct, bool(sep)),', expect='C05-KEY.key-carries'),
+    dict(id='C05-inp2', file='pony/orm/core.py', fn='Query._construct_sql_and_arguments', old='            limit=limit,\n', new='            limit=limit is not None,\n', expect='C05-KEY.key-carries'),
     dict(id='C05-p1', file='pony/orm/core.py', fn='EntityMeta._construct_sql_', old="        sorted_query_attrs = tuple(sorted(query_attrs.items()))\n        query_key = sorted_query_attrs, order_by_pk", new="        sorted_query_attrs = tuple(sorted(query_attrs.items()))\n        query_key = frozenset(query_attrs), order_by_pk", expect='C05-PROJ'),
     dict(id='C05-sh1', file='pony/orm/core.py', fn='EntityMeta._query_from_args_', old="        code_key = code_key, 'query_from_lambda'\n", new="", expect='C05-SHAPE'),
     dict(id='C05-e1', file='pony/orm/sqltranslation.py', fn='SQLTranslator.dispatch_external', old="            translator.root_translator.fixed_param_values.update(prev_translator.fixed_param_values)\n", new="", expect='C05-FIXED.embedded'),
